@@ -109,6 +109,9 @@ structure Rules where
   transposeCheck : Bool := true
   /-- C01-1: an operator that reads its input through a slice is not packed with the producer -/
   readOffsetCheck : Bool := true
+  /-- C01-31 (proposed; read off the live function by the table plug-in): a RELU-type operator and a TANH / SIGMOID operator do
+      not share a pass -/
+  mixCheck : Bool := reluTanhSigmoidRule
 
 /-- the rules of the module under verification -/
 def Rules.current : Rules := { rows := PassPacking.rows }
@@ -141,7 +144,10 @@ def otherConsumer (cs : List (Option Nat)) (cur : Nat) : Bool :=
 
 /-- a RELU-type post operation does not share a pass with a LUT / tanh / sigmoid fused activation -/
 def cpActOk (R : Rules) (c n : POp) : Bool :=
-  !(R.actCheck && activationOps.contains c.type && (match n.act with | none => false | some a => !reluOps.contains a))
+  !(R.actCheck && activationOps.contains c.type && (match n.act with | none => false | some a => !reluOps.contains a)) &&
+  -- (C01-31) nor with a TANH / SIGMOID operator, in either order: the pass is executed with ONE activation function
+  !(R.mixCheck && ((activationOps.contains c.type && (n.type == opTanh || n.type == opSigmoid)) ||
+                   ((c.type == opTanh || c.type == opSigmoid) && activationOps.contains n.type)))
 
 /-- nothing is packed behind a TRANSPOSE -/
 def cpTransposeOk (R : Rules) (n : POp) : Bool := !(R.transposeCheck && n.origType == opTranspose)
